@@ -82,7 +82,13 @@ func OriginPoint() Point {
 func (p Point) PointCross(op Point) Point {
 	// NOTE(dnadasi): In the C++ API the equivalent method here was known as "RobustCrossProd",
 	// but PointCross more accurately describes how this method is used.
-	x := p.Add(op.Vector).Cross(op.Sub(p.Vector))
+	// The sum is tiny when the points are nearly antipodal and the difference
+	// is tiny when they are nearly identical. Both are computed exactly in that
+	// case, but their cross product would lose precision to gradual underflow
+	// (and callers take its squared norm, which underflows below ~1e-154).
+	// The scale of the result carries no meaning, so rescale the tiny factor
+	// first (exactly, by a power of two).
+	x := scaleUpTiny(p.Add(op.Vector)).Cross(scaleUpTiny(op.Sub(p.Vector)))
 
 	// Compare exactly to the 0 vector.
 	if x == (r3.Vector{}) {
@@ -91,7 +97,21 @@ func (p Point) PointCross(op Point) Point {
 		return Point{p.Ortho()}
 	}
 
-	return Point{x}
+	// (The product can still be tiny when op-p is dominated by a difference in
+	// length rather than direction.)
+	return Point{scaleUpTiny(x)}
+}
+
+// scaleUpTiny returns v multiplied by a power of two such that its largest
+// component lies in [0.5, 1) if that component is smaller than 2^-400, and v
+// itself otherwise. The multiplication is exact.
+func scaleUpTiny(v r3.Vector) r3.Vector {
+	m := math.Max(math.Abs(v.X), math.Max(math.Abs(v.Y), math.Abs(v.Z)))
+	if m == 0 || m >= 0x1p-400 {
+		return v
+	}
+	_, e := math.Frexp(m)
+	return r3.Vector{X: math.Ldexp(v.X, -e), Y: math.Ldexp(v.Y, -e), Z: math.Ldexp(v.Z, -e)}
 }
 
 // OrderedCCW returns true if the edges OA, OB, and OC are encountered in that
